@@ -59,6 +59,7 @@ def observer(got, pred, sp, call, sg, prog, ctx, part):
 
 def run(report, tier):
     apirun.run_config(report, 'MC_C01', observer=observer, report_kinds=('S',), overrides={'Want': '<-MC_WantD'})
+    apirun.run_config(report, 'MC_C01M', observer=observer, report_kinds=('S',), overrides={'Want': '<-MC_WantD'})
     return report.finish(
         rule='every Api program of <= MaxCalls calls of the C01/C02 signature with a scalar result x every declared variable '
              '(occurring or not): gradient(e, v).evaluate(p) at regular rational points vs. the spec derivative D(Den(e), v) '
